@@ -1148,7 +1148,7 @@ var c17FixedPaths = []string{"/a<k>", "/a/<k>", "a<k>", "a/b", "/a/b/", "//a//b/
 
 func c17Gen(tier string, rng *rand.Rand) []c17Case {
 	var cs []c17Case
-	nd, ns := 170, 120
+	nd, ns := 140, 100
 	if tier == "thorough" {
 		nd, ns = 1200, 2500
 	}
